@@ -27,6 +27,11 @@ thread_local! {
     };
 }
 
+/// number of calls into the code under test made so far by all threads
+pub fn total_subject_calls() -> u64 {
+    REGISTRY.lock().unwrap().iter().map(|h| h.count.load(Relaxed)).sum()
+}
+
 /// name what this thread is exploring (shown when a call into the code under test never returns)
 pub fn set_label(s: &str) {
     HB.with(|h| *h.label.lock().unwrap() = s.to_string());
